@@ -197,6 +197,76 @@ def refit_oracle(c):
     return fails
 
 
+def prune_round_oracle(rng):
+    """every pruning round of whole fit calls - also of later epochs (max_iter > 1), where a surviving category may own
+    no sample at the moment - against the statement: exactly the categories with fewer than phi samples that were
+    never made permanent go, survivors become permanent, and weights, counters, flags, the adjacency sub-matrix and
+    every sample label are re-indexed by the rank of the category among ALL survivors; orphaned samples get the
+    re-prediction or -1"""
+    import artlib
+    import kernfam
+    kind = rng.choice(["ART2A", "ART2A", "Fuzzy", "Hyper"])
+    d = rng.choice([2, 3])
+    p = kernfam.gen_params(rng, kind, d)
+    if kind in ("Fuzzy", "Hyper") and p["alpha"] == 0.0:
+        p["alpha"] = 1e-3
+    if kind == "ART2A":
+        p["rho"], p["beta"] = rng.choice([0.6, 0.9, 0.95]), rng.choice([0.5, 0.2, 1.0])
+    else:
+        p["beta"] = rng.choice([1.0, 0.5])
+    tau = rng.choice([2, 3, 5])
+    phi = rng.choice([q_ for q_ in [1, 2, 3] if q_ <= tau])
+    X = np.asarray(kernfam.gen_data(rng, kind, rng.randrange(6, 16), d), dtype=float)
+    epochs = rng.choice([1, 2, 3])
+    rep = {"base": kind, "params": {k_: (np.asarray(v_).tolist() if isinstance(v_, np.ndarray) else v_) for k_, v_ in p.items()}, "tau": tau, "phi": phi,
+           "X": X.tolist(), "max_iter": epochs, "how": "fit(X, max_iter); every call of prune compared with the statement"}
+    with contextlib.redirect_stdout(io.StringIO()):
+        est = artlib.TopoART(kernfam.make(kind, p), beta_lower=float(p["beta"]) * rng.choice([0.5, 1.0]), tau=tau, phi=phi)
+    found = []
+    orig = est.prune
+
+    def prune(Xp):
+        Wb = [np.array(w, dtype=float).copy() for w in est.W]
+        cb = [int(c) for c in est.weight_sample_counter_]
+        pb = [bool(b) for b in np.asarray(est._permanent_mask).reshape(-1)] if len(Wb) else []
+        Ab = np.array(est.adjacency).copy()
+        lb = [int(v) for v in est.labels_]
+        orig(Xp)
+        if found:
+            return
+        keep = [i for i in range(len(Wb)) if cb[i] >= phi or pb[i]]
+        rank = {c: r for r, c in enumerate(keep)}
+        Wa = [np.array(w, dtype=float) for w in est.W]
+        if len(Wa) != len(keep) or not all(np.array_equal(a, Wb[i]) for a, i in zip(Wa, keep)):
+            found.append(f"survivors should be the categories {keep} (counters {cb}, permanent {pb}, phi {phi}); {len(Wa)} weights are left and they are not those")
+            return
+        if [int(c) for c in est.weight_sample_counter_] != [cb[i] for i in keep]:
+            found.append("the counters of the survivors were not carried over in order"); return
+        if len(keep) and not all(bool(b) for b in np.asarray(est._permanent_mask).reshape(-1)):
+            found.append("a survivor is not permanent after the round"); return
+        if len(keep) and not np.array_equal(np.asarray(est.adjacency), Ab[np.ix_(keep, keep)]):
+            found.append("the adjacency matrix is not the sub-matrix of the survivors"); return
+        la = [int(v) for v in est.labels_]
+        for i in range(len(Xp)):
+            if lb[i] in rank:
+                if la[i] != rank[lb[i]]:
+                    found.append(f"sample {i} had category {lb[i]} (kept, rank {rank[lb[i]]} among the survivors {keep}) and is now labelled {la[i]}"); return
+            elif not keep:
+                if la[i] != -1:
+                    found.append(f"nothing survived but sample {i} is labelled {la[i]}"); return
+            elif not (0 <= la[i] < len(keep)):
+                found.append(f"orphaned sample {i} is labelled {la[i]} with {len(keep)} survivors"); return
+    est.prune = prune
+    try:
+        with contextlib.redirect_stdout(io.StringIO()), np.errstate(all="ignore"):
+            est.fit(X, max_iter=epochs)
+    except Exception:
+        return None          # totality is C04's business
+    if found:
+        return {"signature": "TopoART/prune-reindex", "text": found[0], "replay": rep}
+    return None
+
+
 def main():
     tier = sys.argv[1] if len(sys.argv) > 1 else "quick"
     seed = C.seed_from_env()
@@ -222,6 +292,12 @@ def main():
             nontriv += 1
         hashes.add(h)
         fails.extend(oracle(c)); fails.extend(refit_oracle(c))
+    rng_p = C.make_rng(seed, "C14-prune")
+    n_pr = 200 if tier == "quick" else 2000
+    for _ in range(n_pr):
+        r = prune_round_oracle(rng_p)
+        if r:
+            fails.append(r)
     codes, bad = flow.coq_corr("C14", "RunTopo", strs, shard=70, check_fn="tcheck", extra_imports="From ARTcorr Require Import RunBase RunSam.\n")
     for b in bad:
         v.notes.append("coq shard failed: " + b[-600:])
@@ -236,7 +312,7 @@ def main():
         return out
     flow.decide(v, "C14", gate_ok, ob, list(zip(codes, summ)), fails, extended)
     v.cov.update({
-        "evaluations": n, "distinct_nontrivial": nontriv,
+        "evaluations": n + n_pr, "distinct_nontrivial": nontriv, "whole_fits_with_every_pruning_round_judged": n_pr,
         "rule": "TopoART over Fuzzy ART (beta in {1,1/2}, beta_lower <= beta incl. 0), tau in {2,3,4,5,8}, phi <= tau, 2-23 samples from small row pools (several pruning rounds, "
                 "rounds removing every category occur), 5 modes, 30% with a table reset function, optional re-fit, then predict; non-trivial = distinct case with >= 2 pruning rounds",
         "traces_validated_against_impl": sum(1 for x in codes if x == 0),
